@@ -145,8 +145,8 @@ theorem round_spec (hglue : WinterProofs.C11.Mds8.mm_eq_tail_statement)
     · exact d5.1
     · exact d6.1
     · exact d7.1
-  · simp only [refRound_eq, matVecZ_eq, dotZ_eq, mds_table_eq, List.map_cons, List.map_nil, List.zipWith_cons_cons,
-      List.zipWith_nil_left, List.sum_cons, List.sum_nil, add_zero,
+  · simp only [refRound_eq, matVecZ_eq, dotZ_eq, mds_table_eq, map_cons', map_nil', zipWith_cons',
+      zipWith_nil', sum_cons', sum_nil', add_zero,
       hA, hI, Nat.cast_ofNat, add_assoc,
       d0.2, d1.2, d2.2, d3.2, d4.2, d5.2, d6.2, d7.2,
       vz0, vz1, vz2, vz3, vz4, vz5, vz6, vz7,
